@@ -354,6 +354,11 @@ class Ctx:
         self.extra: dict = {}
         self.proof: dict | None = None
         self.known = [k for k in load_known() if k.get("property") == pid]
+        for old in REPLAYS.glob(f"{pid}-{tier}-{seed}*.json"):     # stale replays of an earlier run with the same parameters
+            try:
+                old.unlink()
+            except OSError:
+                pass
 
     quick = property(lambda self: self.tier == "quick")
 
